@@ -116,7 +116,7 @@ contract(
     "ethosu.vela.greedy_allocation:GreedyAllocator.alloc", props=["C05"],
     types=dict(self=GA, new_lr=LR),
     externals={"ethosu.vela.live_range:LiveRange.set_address": _set_address_model},
-    sorted_mode="insertion",
+    sorted_mode="insertion", ghost_results={"_ghost_ins": PyInt},
     requires=["ga_wf(self)", "new_lr.size >= 1", "new_lr.alignment > 0", "self.memory_required >= 0",
               "all(self.current_allocs[i][1] is not new_lr for i in range(len(self.current_allocs)))"],
     loops={
@@ -132,25 +132,31 @@ contract(
             " for g in range(_it0))",
         ]),
     },
+    hints={
+        # after the gap search, before anything is stored: the chosen interval avoids every live entry
+        "before:best_offset = new_lr.set_address(best_offset)": [
+            "all(disjoint(best_offset, aligned_size, self.current_allocs[j][0], self.current_allocs[j][1].size) for j in range(len(self.current_allocs)))",
+            "aligned_size >= new_lr.size",
+        ],
+    },
     ensures=[
         "len(self.current_allocs) == old(len(self.current_allocs)) + 1",
-        "any(self.current_allocs[k][1] is new_lr for k in range(len(self.current_allocs)))",
-        # the new entry: aligned, non-negative, disjoint from every entry that was live
-        "all(implies(self.current_allocs[k][1] is new_lr, self.current_allocs[k][0] % new_lr.alignment == 0 and self.current_allocs[k][0] >= 0"
-        " and all(disjoint(self.current_allocs[k][0], new_lr.size, old(self.current_allocs)[j][0], old(self.current_allocs)[j][1].size)"
-        "         for j in range(old(len(self.current_allocs))))"
-        " and self.memory_required == max(old(self.memory_required), self.current_allocs[k][0] + ((new_lr.size + new_lr.alignment - 1) // new_lr.alignment) * new_lr.alignment))"
-        " for k in range(len(self.current_allocs)))",
-        # lemmas (each proved, then used by the next): the list is the old one with the new entry inserted at k ...
-        "all(implies(self.current_allocs[k][1] is new_lr,"
-        "  all(self.current_allocs[i] == old(self.current_allocs)[i] for i in range(k))"
-        "  and all(self.current_allocs[i] == old(self.current_allocs)[i - 1] for i in range(k + 1, len(self.current_allocs))))"
-        " for k in range(len(self.current_allocs)))",
-        # ... everything before it ends below it, everything after it starts above its end
-        "all(implies(self.current_allocs[k][1] is new_lr,"
-        "  all(self.current_allocs[i][0] + self.current_allocs[i][1].size <= self.current_allocs[k][0] for i in range(k))"
-        "  and all(self.current_allocs[k][0] + new_lr.size <= self.current_allocs[i][0] for i in range(k + 1, len(self.current_allocs))))"
-        " for k in range(len(self.current_allocs)))",
+        # _ghost_ins: the position at which sorted() inserted the new entry
+        "0 <= _ghost_ins < len(self.current_allocs) and self.current_allocs[_ghost_ins][1] is new_lr",
+        # the list is the old one with the new entry inserted there
+        "all(self.current_allocs[i] == old(self.current_allocs)[i] for i in range(_ghost_ins))",
+        "all(self.current_allocs[i] == old(self.current_allocs)[i - 1] for i in range(_ghost_ins + 1, len(self.current_allocs)))",
+        # the new entry: aligned and non-negative ...
+        "self.current_allocs[_ghost_ins][0] % new_lr.alignment == 0 and self.current_allocs[_ghost_ins][0] >= 0",
+        # ... disjoint from every entry that was live ...
+        "all(disjoint(self.current_allocs[_ghost_ins][0], new_lr.size, old(self.current_allocs)[j][0], old(self.current_allocs)[j][1].size)"
+        "    for j in range(old(len(self.current_allocs))))",
+        # ... and memory_required grows exactly to its aligned end
+        "self.memory_required == max(old(self.memory_required), self.current_allocs[_ghost_ins][0]"
+        " + ((new_lr.size + new_lr.alignment - 1) // new_lr.alignment) * new_lr.alignment)",
+        # lemma: everything before it ends below it, everything after it starts above its end
+        "all(self.current_allocs[i][0] + self.current_allocs[i][1].size <= self.current_allocs[_ghost_ins][0] for i in range(_ghost_ins))",
+        "all(self.current_allocs[_ghost_ins][0] + new_lr.size <= self.current_allocs[i][0] for i in range(_ghost_ins + 1, len(self.current_allocs)))",
         "ga_entries_ok(self)",
         "ga_ordered(self)",
     ],
